@@ -1214,3 +1214,64 @@ Proof.
         apply KEEP. exists q'. unfold ix_add. apply in_or_app. right. left. reflexivity.
       * apply IH, INF.
 Qed.
+
+Lemma ixinv_set_used s x : ixinv s -> ixinv (set_used s x).
+Proof. intros X id f q IN. apply (X id f q IN). Qed.
+
+Lemma attach_ix k c now p a e s :
+  wf s -> ixinv s -> hasobj s c = false -> ixinv (fst (attach k c now p a e s)).
+Proof.
+  intros W X HN. unfold attach.
+  destruct (cp_trunc p); [exact X|].
+  destruct (negb (validate_connect k p =? 0)); [exact X|].
+  destruct (negb a); [exact X|].
+  pose proof (inherit_ix k now p (parse_connect c p e) s W X eq_refl) as IX.
+  pose proof (inherit_frame k now p (parse_connect c p e) s W) as IF.
+  destruct (inherit k now p (parse_connect c p e) s) as [[[s1 n1] sp] o1].
+  destruct IX as (IX & _). destruct IF as (KN & CN & IF). cbn in CN.
+  change (o_id (parse_connect c p e)) with e in *.
+  set (n2 := if k_maxsei k <? o_sei n1 then with_sei n1 (k_maxsei k) true else n1).
+  assert (K2 : o_id n2 = e /\ o_conn n2 = c /\ o_subs n2 = o_subs n1).
+  { unfold okey in KN. cbn in KN. inversion KN. subst n2. destruct (k_maxsei k <? o_sei n1); cbn; auto. }
+  destruct K2 as (I2 & C2 & S2). cbn [fst].
+  assert (C1 : st_clients s1 = st_clients s /\ hasobj s1 c = false).
+  { destruct (aget e (st_clients s)) as [ec|] eqn:A.
+    - destruct IF as ((U1 & C1 & K1 & O1 & N1) & _). split; [exact C1|].
+      assert (NEC : c <> ec).
+      { intro EQ. subst ec. destruct (wf_reg s W _ _ A) as (x & Gx & _). unfold hasobj in HN. rewrite Gx in HN. discriminate. }
+      unfold hasobj in *. specialize (K1 c NEC). destruct (get_obj c (st_objs s)); [discriminate|].
+      destruct (get_obj c (st_objs s1)); [discriminate|reflexivity].
+    - subst s1. auto. }
+  destruct C1 as (C1 & HN1).
+  intros id f q IN. cbn in IN. cbn. rewrite I2, C1.
+  destruct (IX id f q IN) as [(E & F)|(NE & c2 & o2 & A2 & G2 & F2)].
+  - subst id. exists c, n2. rewrite aget_aset_same. split; [reflexivity|]. split; [rewrite <- C2; apply get_put_same|].
+    rewrite S2. exact F.
+  - exists c2, o2. rewrite aget_aset_other by exact NE. split; [exact A2|split; [|exact F2]].
+    rewrite get_put_other; [exact G2|]. rewrite C2. intro EQ. subst c2. unfold hasobj in HN1. rewrite G2 in HN1. discriminate.
+Qed.
+
+Definition inv (s : state) : Prop := wf s /\ ixinv s.
+
+Lemma inv_init : inv init.
+Proof. split; [apply wf_init|]. intros id f q []. Qed.
+
+Theorem step_inv k s o : inv s -> inv (fst (step k s o)).
+Proof.
+  intros [W X]. split; [apply step_wf, W|].
+  destruct o; cbn [step].
+  - destruct (memN c (st_used s)) eqn:M; [exact X|].
+    apply attach_ix; [apply wf_set_used, W|apply ixinv_set_used, X|].
+    rewrite hasobj_set_used. destruct (hasobj s c) eqn:H; [apply (wf_used s W) in H; congruence|reflexivity].
+  - destruct (memN c (st_used s)); [exact X|]. cbn [fst]. apply ixinv_set_used, X.
+  - apply do_disconnect_ix; assumption.
+  - apply do_netclose_ix; assumption.
+  - apply do_teardown_ix; assumption.
+  - apply tick_clients_ix; auto. apply (wf_nodup s W).
+  - apply (ixinv_same_subs s); [apply tick_will_same_subs|exact X].
+  - apply do_subscribe_ix; assumption.
+  - unfold do_publish. destruct (reading s c); [|exact X].
+    apply (ixinv_same_subs s); [|exact X]. eapply same_subs_trans; [|apply deliver_same_subs].
+    destruct (m_retain m); [apply retain_msg_same_subs|apply same_subs_refl].
+  - apply do_second_connect_ix; assumption.
+Qed.
